@@ -24,10 +24,10 @@ CHECKS = {
    text="583 applicable cells of the blocking matrix are executed; yield hooks place Close / commits exactly in the check-to-Wait window and before the Lock; afterwards every exported method is probed. A parked call with no enabled waker (two identical all-parked snapshots) is the witness. Close arriving inside the copy phase of a multi-MiB Read or Write.",
    note="liveness restated as absence of stuck states on the enumerated matrix; deadlines are only watchdogs", ref="3/C15"),
  "C01": dict(cat="exploration", tech="reference-model monitor over wire histories of a real broker (net.Pipe) at synctest quiescence points; payloads carry unique id + CRC",
-   text="Thousands of generated sequential histories are executed step by step against the real broker; after every publish, at true quiescence, each subscriber's received copies are compared with what a small subscription model and the MQTT 4.7 matcher allow (1..k copies, QoS multiset, nobody else). Sampling of histories, not exhaustive. Multi-filter UNSUBSCRIBEs also list filters the client does not hold. Half of the clients keep their session across reconnects.",
+   text="Thousands of generated sequential histories are executed step by step against the real broker; after every publish, at true quiescence, each subscriber's received copies are compared with what a small subscription model and the MQTT 4.7 matcher allow (1..k copies, QoS multiset, nobody else). Sampling of histories, not exhaustive. Multi-filter UNSUBSCRIBEs also list filters the client does not hold. Half of the clients keep their session across reconnects. Payload sizes put the delivered packets on the edges of the remaining-length encoding.",
    note="trusted: synctest quiescence, spec.Match, the subscription model; known finding F-C01-1 (empty levels) recognised by classifier", ref="3/C01"),
  "C07": dict(cat="exploration", tech="wire-level monitor: SUBACK/UNSUBACK obligations and probe-publish effect check at synctest quiescence",
-   text="Generated SUBSCRIBE/UNSUBSCRIBE packets incl. invalid filters and out-of-range QoS are sent to the real broker; silence on an open connection, a wrong code, order or count is a violation, and probes after the ack verify that exactly the granted filters are effective. Also: 4..13 connections subscribing / unsubscribing at the same moment on one tree node, with PINGREQ/PINGRESP barriers (real time). A subject subscribed behind a short-lived neighbour must receive a whole numbered stream while the neighbour's connection is cut inside it. Requests with up to 300 filters.",
+   text="Generated SUBSCRIBE/UNSUBSCRIBE packets incl. invalid filters and out-of-range QoS are sent to the real broker; silence on an open connection, a wrong code, order or count is a violation, and probes after the ack verify that exactly the granted filters are effective. Also: 4..13 connections subscribing / unsubscribing at the same moment on one tree node, with PINGREQ/PINGRESP barriers (real time). A subject subscribed behind a short-lived neighbour must receive a whole numbered stream while the neighbour's connection is cut inside it. Requests with up to 300 filters. An unsubscribe issued on another connection of the same session must hold when the session is resumed.",
    note="trusted: reference encoder for malformed requests, synctest quiescence", ref="3/C07"),
  "C08": dict(cat="exploration", tech="last-writer-wins model monitor over wire histories at synctest quiescence; CRC payloads",
    text="Retained/plain/clearing publishes, filler traffic beyond two ring sizes and new subscriptions are interleaved; at every new subscription the exact multiset of retained deliveries (flag, QoS, payload identity) is compared with the model. Retained messages that fit must all reach a new subscription even when retained wills larger than the rings sit on sibling topics.",
@@ -51,7 +51,7 @@ CHECKS = {
    text="Completion callbacks and peer acks are stamped from one counter; exactly-once, not-before-ack and completed-by-barrier are checked for generated ack orders; the adverse interleaving is forced deterministically through the verif yield point and the proc.handled event; forwarded packet identifiers in flight are checked on the subscriber's wire. Also: 2..4 clients used by 4..8 goroutines each with all acknowledgements withheld (identifiers in flight distinct, completions exactly once), and identifier wrap-around caused by another client in the process. A quarter of the scripted requests carry no completion function. Requests larger than the client's buffer must return, never complete, and not hold up the others. A PUBREC repeated after its exchange is over is still answered with a PUBREL.",
    note="real TCP/real time with a protocol barrier; one session at a time per child process", ref="3/C12"),
  "C20": dict(cat="exploration", tech="scripted-peer monitor of Client.Connect results and callback dispatch; goroutine-snapshot leak check",
-   text="27 CONNACK answers and hundreds of generated subscribe/unsubscribe/inbound-publish sessions; per-request callback invocation counts are compared with the MQTT matcher after a protocol barrier; goroutine snapshots show no library frame after failed Connect / Disconnect. Also: a burst of deliveries followed at once by the end of the stream (callbacks counted at the teardown-finished event). A third of the Subscribe/Unsubscribe calls are held right after writing the request until the acknowledgement was handled. Several Clients of one process sharing a client identifier towards different servers. The CONNACK cases and every fourth dispatch session also run over TLS through ConnectTLS.",
+   text="27 CONNACK answers and hundreds of generated subscribe/unsubscribe/inbound-publish sessions; per-request callback invocation counts are compared with the MQTT matcher after a protocol barrier; goroutine snapshots show no library frame after failed Connect / Disconnect. Also: a burst of deliveries followed at once by the end of the stream (callbacks counted at the teardown-finished event). A third of the Subscribe/Unsubscribe calls are held right after writing the request until the acknowledgement was handled. Several Clients of one process sharing a client identifier towards different servers. The CONNACK cases and every fourth dispatch session also run over TLS through ConnectTLS. A server that is silent for longer than the connect timeout right after CONNACK 0 must not lose the client.",
    note="real TCP on 127.0.0.1; leak check by stack frames under the library import path", ref="3/C20"),
  "C16": dict(cat="fault_enumeration", tech="enumerated teardown matrix at synctest quiescence; teardown-finished hook events, witness client, goroutine-snapshot leak check, process-wide deadlock watchdog",
    text="All 160 cause x buffer-condition x order x will x CleanSession cells are executed against the real broker with really full rings (clients that stop reading); completion of teardown is decided from hook events and goroutine state at quiescence. Since extended to 232 cells (an incomplete near-ring-size message in the inbound ring as a fifth condition), 32 pipelined cells (ending packet behind a held-up delivery) and 36 real-time window cells where the yield hook holds a goroutine between its done-check and Cond.Wait while the connection ends, keep-alive expiry included. A third of the cells have refused ('$') publishes in their history; wills larger than the rings must not keep a teardown from finishing. Condition own-out-full: the connection's own processor parked on its own full outgoing ring; keep-alive expiry must tear it down before anybody closes anything. The fronts workload (TCP/TLS accept loops, websocket proxy) ends with Server.Close and a no-goroutine-left check. A packet larger than the ring is a sixth cause of teardown.",
@@ -60,7 +60,7 @@ CHECKS = {
    text="Dozens of concurrent runs with up to 12 publishers, slow/bursty subscribers, in-process publishers, retained updates and churning clients; every received byte is strict-parsed, every payload CRC-checked, sequence numbers per publisher/topic/QoS must increase. Held on the executed schedules. A stored session is resumed dozens of times while 9..30 KiB messages pour into its subscription: CONNACK first, whole packets only. The same workload also runs through the library's TCP accept loop, TLS accept loop (1.3 and 1.2) and websocket proxy, each publisher ending with a message right before it closes.",
    note="real time over net.Pipe; quiescence by protocol barriers", ref="3/C17"),
  "C18": dict(cat="exploration", tech="Go race detector (-race, reports parsed from GORACE logs) over concurrent broker, ring and ack-queue workloads with measured overlap counters",
-   text="The race detector observes workloads W1-W7; any report with a library frame is a violation keyed by the pair of innermost library functions; overlap counters (e.g. thousands of deliveries entering writeMessage during the target's teardown) are measured in the same processes and must exceed floors. Workload W8 lets two connections of one stored session work off acknowledgements at the same time. Workload W9: several library Clients of one process connecting and disconnecting at once.",
+   text="The race detector observes workloads W1-W7; any report with a library frame is a violation keyed by the pair of innermost library functions; overlap counters (e.g. thousands of deliveries entering writeMessage during the target's teardown) are measured in the same processes and must exceed floors. Workload W8 lets two connections of one stored session work off acknowledgements at the same time. Workload W9: several library Clients of one process connecting and disconnecting at once. The retained workloads also clear retained messages.",
    note="absence of reports on executed schedules only; W7 (same client id reconnecting during teardown) was open finding F-C18-1 until repair b5ad4f5", ref="3/C18"),
  "C05": dict(cat="fault_enumeration", tech="out-of-process broker under enumerated hostile connections with a witness publisher/subscriber pair and an idle observer as monitors; exit status/stderr capture",
    text="More than a thousand attack connections per quick run (truncations at every offset, field corruptions, mutated packets of all types, oversized packets, forbidden packets, cuts and teardown racing deliveries) against real broker processes over TCP; after each, process liveness, bystander connections and the exact witness sequence are checked. Also in-process: several publishers delivering to a stalled subscriber at the moment it is cut must all survive and keep working. Also: well-framed short CONNECTs, mutated CONNECTs as first packet, and wills larger than the configured rings (a CONNECT bypasses the ring) whose delivery must neither wedge a subscriber nor the teardown. Includes same-identifier churn against a 2000-filter session. A retained publish in the window between a subscriber's sudden disconnect and the end of its teardown must be kept for later subscribers.",
